@@ -198,6 +198,9 @@ func (fr *Frame) load(l *Loc) Term {
 		path = path[1:]
 	case LBox:
 		s := tm.SortOf(l.Type)
+		if cv, ok := fr.R.constCells[l.Ref.S]; ok && len(l.Path) == 0 {
+			return cv
+		}
 		if fr.st.vol[l.Ref.S] {
 			base = fr.freshTyped("vol", l.Type)
 		} else {
